@@ -56,8 +56,21 @@ def rule_helper(ctx, R):
     ctx.check(m(B("Mul", F(Par(1), "num_blocks"), F(Par(1), "block_len")), t), "H-RANGE", fn["num_elements"], "num_elements", fn["num_elements"].span,
               "num_elements = num_blocks * block_len; found %s" % show(t), show(t))
     t, _ = _ret(lib, fn["active_block_range"])
-    ok = m(("agg", "core::ops::Range", "Range", (("start", C(endswith("saturating_sub"), F(Par(1), "num_blocks"), F(Par(1), "num_free_blocks"))),
-                                                   ("end", F(Par(1), "num_blocks")))), t)
+    nb_, nf_ = F(Par(1), "num_blocks"), F(Par(1), "num_free_blocks")
+    ok = m(("agg", "core::ops::Range", "Range", (("start", C(endswith("saturating_sub"), nb_, nf_)), ("end", nb_))), t)
+    if not ok and t[0] == "agg" and t[1] == "core::ops::Range":
+        # explicit saturating subtraction: if nb > nf { nb - nf } else { 0 }  (any comparison form), decided under both assumptions
+        f_ = dict(t[3])
+        ab = fn["active_block_range"]
+        AS = Sites(lib, ab)
+        gt = lambda x: cond.le_terms(x, lambda a: m(nb_, a), lambda b_: m(nf_, b_))     # nb <= nf
+        # the start operand of the Range literal
+        lits = [st for bi, si, st in ab.stmts() if st["k"] == "assign" and st["rv"]["k"] == "aggregate" and st["rv"].get("adt", "").endswith("ops::Range")]
+        if len(lits) == 1 and m(nb_, f_.get("end")):
+            sop = lits[0]["rv"]["ops"][0]
+            v_le = cond.values_under(AS.root, [0], cond.prop_atoms(gt, True), sop)
+            v_gt = cond.values_under(AS.root, [0], cond.prop_atoms(gt, False), sop)
+            ok = bool(v_le) and all(is_const(x, 0) for x in v_le) and bool(v_gt) and all(m(B("Sub", nb_, nf_), x) for x in v_gt)
     ctx.check(ok, "H-RANGE", fn["active_block_range"], "active-block-range", fn["active_block_range"].span,
               "active blocks = num_blocks.saturating_sub(num_free_blocks)..num_blocks; found %s" % show(t), show(t))
     if "active_index_range" in fn:
